@@ -1,6 +1,6 @@
 (* C10 - every reported source location is the true line and column.
    Theorems only; proofs live in Lang/LocationProps.v. *)
-From GV Require Import Base.Prelude Lang.Location Lang.LocationProps.
+From GV Require Import Base.Prelude Lang.Location Lang.LocationProps Lang.Lexer Lang.LexerLoc.
 
 (* get_location = 1 + #terminators(LF, CR LF once, CR; nothing else) before the offset,
    1 + distance from the end of the last one. *)
@@ -24,6 +24,14 @@ Theorem C10_lexer_bookkeeping : forall s line ls pos,
    if (count_lt false s =? 0)%nat then ls else (pos + length s - tail_len 0 s)%nat).
 Proof. intros. apply (scan_lines_spec_n (length s)). lia. Qed.
 Print Assumptions C10_lexer_bookkeeping.
+
+(* Every token of every source that lexes - comments and EOF included, block strings spanning
+   lines included - carries as line/column exactly get_location of its start offset: the
+   lexer's incremental line/line_start bookkeeping agrees with the specification. *)
+Theorem C10_token_locations : forall s ts, lex s = Ok ts ->
+  Forall (fun t => (tline t, tcol t) = get_location s (tstart t)) ts.
+Proof. exact token_locations. Qed.
+Print Assumptions C10_token_locations.
 
 (* non-vacuity: a concrete text with all three terminators and a non-terminator FF *)
 Example C10_example :
